@@ -5,12 +5,12 @@
    their rook squares, ep square, half-move clock, full-move number.  wf = the structural half of valid().
    [mfits] is the shape of a move with respect to the mailbox (mover on its origin, destination empty or
    holding the labelled enemy piece, ep victim / castling king and rook where labelled).
-   STATUS: the refinement is proved for every move of that shape; that every RULE-LEGAL move of a
-   legal-consistent position has that shape (Refine.SpecFits.spec_moves_fit) closes the statement for the
-   property's domain.  Statements only. *)
+   The refinement is proved for every move of that shape, and every RULE-LEGAL move of a legal-consistent
+   position has that shape (Refine.SpecFits.spec_moves_fit): C02_every_legal_move is the property's statement.
+   Statements only. *)
 From Coq Require Import NArith List Bool.
 From LC Require Import Bits Types BitboardModel MoveModel ZobristModel PositionModel MakeModel GameModel
-  Spec.Rules Refine.Abs Refine.Board Refine.Make Refine.Wf Refine.MakeAbs.
+  Spec.Rules Refine.Abs Refine.Board Refine.Make Refine.Wf Refine.MakeAbs Refine.SpecFits.
 Import ListNotations.
 Local Open Scope N_scope.
 
@@ -20,6 +20,12 @@ Theorem C02_makemove_refines : forall K p m,
   abs (makemove K p m) = apply_move (abs p) m /\ wf (makemove K p m) = true.
 Proof. exact makemove_refines. Qed.
 
+(* ... in particular for every move that is legal under the rules in a legal-consistent position (either mode) *)
+Theorem C02_every_legal_move : forall K dfrc p m,
+  wf p = true -> rooks_ok p -> legal_consistent dfrc (abs p) = true -> In m (spec_moves (abs p)) ->
+  abs (makemove K p m) = apply_move (abs p) m /\ wf (makemove K p m) = true.
+Proof. exact (fun K dfrc p m Hwf Hr Hlc Hin => makemove_refines K p m Hwf Hr (spec_moves_fit dfrc p m Hr Hlc Hin)). Qed.
+
 (* makenull only passes the turn: placement, rights and full-move number stay, the ep square is cleared *)
 Theorem C02_makenull_refines : forall K p, abs (makenull K p) = apply_null (abs p) /\ (wf p = true -> wf (makenull K p) = true).
 Proof. exact makenull_refines. Qed.
@@ -28,4 +34,4 @@ Proof. exact makenull_refines. Qed.
 Theorem C02_makemove_text : forall K p s, makemove_str K p s = option_map (makemove K p) (parse_move p s).
 Proof. reflexivity. Qed.
 
-Print Assumptions C02_makemove_refines. Print Assumptions C02_makenull_refines. Print Assumptions C02_makemove_text.
+Print Assumptions C02_makemove_refines. Print Assumptions C02_every_legal_move. Print Assumptions C02_makenull_refines. Print Assumptions C02_makemove_text.
